@@ -8,6 +8,8 @@ mod server;
 mod c10;
 mod c14;
 mod c15;
+mod c13s;
+mod realbin;
 #[path = "../../schedmc/src/explore.rs"]
 mod explore;
 
@@ -46,6 +48,7 @@ fn main() {
         "C10" => c10::run(&tier, replay.as_deref()),
         "C14" => c14::run(&tier, replay.as_deref()),
         "C15" => c15::run(&tier, replay.as_deref()),
+        "C13S" => c13s::run(&tier),
         _ => {
             eprintln!("srvmc: unknown property {prop}");
             2
